@@ -24,6 +24,25 @@ PROPS = {
                  'differential run against the real nodetable.NodeTable and nitro.NodeList',
                  'Go maps modelled as association lists; pointers below 2^63; keyEqual compares keyOf(pointer) with the key'],
     ),
+    'C16': dict(
+        modules=['NitroVerif.Props.C16'],
+        iruns=[('barrier', gens.gen_barrier, 150, 6000)],
+        level='proof',
+        level_text='C16_barrier_safety, C16_grant, C16_destructor_call, C16_released_before_destructor are proved in Lean for every schedule and any number of threads on a small-step model with one program counter per shared-memory step of access_barrier.go; the model is tied to the source by regenerated thresholds/skeletons and by steered schedules on the real AccessBarrier validated step by step against the model',
+        trusted=['Lean 4 kernel', 'tools/gofacts translation of access_barrier.go thresholds, tests and operation skeletons',
+                 'steered schedules (cooperative scheduler over verif yield points) on the real AccessBarrier, each trace validated against the model',
+                 'each sync/atomic operation is one sequentially consistent step; int32 overflow excluded (fewer than 2^30 simultaneous accessors of one session)',
+                 'the internal free queue (a skiplist with an inactive barrier) is modelled as a list sorted by seqno'],
+    ),
+    'C17': dict(
+        modules=['NitroVerif.Props.C17'],
+        iruns=[('barrier', gens.gen_barrier, 150, 6000)],
+        level='proof',
+        level_text='C17_quiescent_nothing_pending is proved in Lean for the current protocol (with the re-check after the destructor flag is dropped), every schedule, any number of threads; C17_unfixed_counterexample is the kernel-checked witness for the original code; tie as for C16, and every steered run ends quiescent so the property itself is evaluated on the real barrier',
+        trusted=['Lean 4 kernel', 'tools/gofacts translation of access_barrier.go thresholds, tests and operation skeletons',
+                 'steered schedules on the real AccessBarrier, each trace validated against the model and ending in a quiescent state',
+                 'each sync/atomic operation is one sequentially consistent step; scheduling inside a segment between two yield points is not explored'],
+    ),
 }
 
 
